@@ -835,6 +835,21 @@ func checkSinkTarget(c *Ctx, d Driver, roles Roles) {
 	R.Floor("R06.3:sink-writes:"+d.Name, n, 1)
 }
 
+// atomicCellKey: the typed key ("pkg.Type.field") of the struct field an atomic operation's receiver term denotes.
+func atomicCellKey(t *core.Term) string {
+	if t == nil {
+		return ""
+	}
+	if fa, ok := t.Val.(*ssa.FieldAddr); ok {
+		return core.FieldName(fa)
+	}
+	// a term rebuilt while lifting a helper's condition into its caller carries no SSA value: the field name is what is left
+	if t.Op == "field" {
+		return t.Name
+	}
+	return ""
+}
+
 // checkEngineSend is R06.5.
 func checkEngineSend(c *Ctx) {
 	R := c.R
@@ -952,15 +967,25 @@ func reachWithin(from, to *ssa.BasicBlock, cut, loop map[*ssa.BasicBlock]bool) b
 
 func checkStopOnDest(c *Ctx, e *Engine) {
 	R := c.R
+	stopFlags := map[string]bool{} // atomic.Bool cells the sender tests before every send
 	if e.Parallel {
 		// parallel: sender re-tests the cancellable context; receiver cancels on IsDest
 		for _, s := range e.SendSites {
 			g := s.Parent()
-			okTest := false
-			for _, pa := range firstPath(g, s.Block()) {
-				env := core.NewEnv(c.P, pa)
-				for _, a := range env.Atoms() {
+			// the sender's stop test may sit in a predicate helper (keepSending(ctx)): its conditions are opened; next to the
+			// cancellable context a stop flag (atomic.Bool the receiver sets) is recognised. EVERY path to the send carries it.
+			sendPaths := InlinedPathsTo(c.P, g, s.Block(), inlineOpts{pkg: core.FuncPkg(g), stop: hasLoop})
+			allTested := len(sendPaths) > 0
+			for _, ip := range sendPaths {
+				okTest := false
+				for _, a := range ip.Atoms {
 					nn := a.Norm()
+					if !nn.Sign && nn.Cond.Op == "call" && strings.HasSuffix(nn.Cond.Name, "atomic.Bool).Load") && len(nn.Cond.Args) == 1 {
+						if k := atomicCellKey(nn.Cond.Args[0]); k != "" {
+							stopFlags[k] = true
+							okTest = true
+						}
+					}
 					if nn.Sign && nn.Cond.Op == "binop" && nn.Cond.Name == "==" && nn.Cond.Args[1].IsConst("nil") && isCallToSuffix(nn.Cond.Args[0], "context.Context.Err") {
 						// which context
 						if nn.Cond.Args[0].Val != nil {
@@ -974,8 +999,11 @@ func checkStopOnDest(c *Ctx, e *Engine) {
 						}
 					}
 				}
+				if !okTest {
+					allTested = false
+				}
 			}
-			R.Check(okTest, "R06.5", e.Name+"#sender-cancel-test", s.Pos(), core.FuncName(g), "the sender re-tests its cancellable context before every send", "the sender does not test the cancellable context before sending: probes continue after the destination answered")
+			R.Check(allTested, "R06.5", e.Name+"#sender-cancel-test", s.Pos(), core.FuncName(g), "the sender re-tests its stop signal (cancellable context / stop flag) before every send", "some path to SendProbe does not test the stop signal (the cancellable context or the flag the receiver sets): probes continue after the destination answered")
 		}
 		// cancelsOnDest: in function g, a test of v.IsDest whose true branch calls the cancel function of a context.WithCancel
 		cancelsOnDest := func(g *ssa.Function, isV func(ssa.Value) bool) bool {
@@ -993,6 +1021,18 @@ func checkStopOnDest(c *Ctx, e *Engine) {
 					continue
 				}
 				for _, in := range b.Succs[0].Instrs {
+					// sets the stop flag the sender tests: flag.Store(true)
+					if call, ok := in.(*ssa.Call); ok {
+						if cal := call.Common().StaticCallee(); cal != nil && cal.String() == "(*sync/atomic.Bool).Store" && len(call.Common().Args) == 2 {
+							if k, isK := call.Common().Args[1].(*ssa.Const); isK && k.Value != nil && k.Value.ExactString() == "true" {
+								if fa, isFA := call.Common().Args[0].(*ssa.FieldAddr); isFA {
+									if stopFlags[core.FieldName(fa)] {
+										return true
+									}
+								}
+							}
+						}
+					}
 					if call, ok := in.(*ssa.Call); ok && call.Common().StaticCallee() == nil && !call.Common().IsInvoke() {
 						if ex, ok := c.P.DefX(call.Common().Value).(*ssa.Extract); ok && ex.Index == 1 {
 							if src, ok := ex.Tuple.(*ssa.Call); ok && src.Common().StaticCallee() != nil && src.Common().StaticCallee().String() == "context.WithCancel" {
